@@ -227,7 +227,15 @@ class Glue:
             else:
                 resp += (f"        \"{variant}\" => Some(ctap_types::ctap2::Response::{variant}(build_{mangle(payload)}(v?))),\n")
         resp += "        _ => None,\n    }\n}\n"
-        return hdr + "\n".join(self.out) + "\n" + dec + "\n" + enc + "\n" + req + "\n" + resp
+        tb = "pub fn table(name: &str) -> Option<Vec<(&'static str, u64)>> {\n    match name {\n"
+        tb += "        \"status\" => Some(vec![" + ", ".join(
+            f"(\"{n}\", ctap_types::ctap2::Error::{n} as u64)" for n, _ in tables["status_names"]) + "]),\n"
+        for bname, path in (("Permissions", "ctap_types::ctap2::client_pin::Permissions"),
+                            ("AuthenticatorDataFlags", "ctap_types::ctap2::AuthenticatorDataFlags")):
+            tb += f"        \"{bname}\" => Some(vec![" + ", ".join(
+                f"(\"{n}\", {path}::{n}.bits() as u64)" for n, _ in tables["bitflags"].get(bname, [])) + "]),\n"
+        tb += "        _ => None,\n    }\n}\n"
+        return hdr + "\n".join(self.out) + "\n" + dec + "\n" + enc + "\n" + req + "\n" + resp + "\n" + tb
 
 
 def main():
@@ -235,7 +243,8 @@ def main():
     outdir = sys.argv[2]
     for cfg, sj in sorted(data["schemas"].items()):
         g = Glue(sj)
-        src = g.render(sj, sj["variants"])
+        src = g.render(sj, dict(sj["variants"], status_names=data["tables"]["status_codes"],
+                                 bitflags=data["tables"]["bitflags"]))
         path = os.path.join(outdir, f"glue_{cfg}.rs")
         old = open(path).read() if os.path.exists(path) else None
         if old != src:
